@@ -83,6 +83,106 @@ namespace
     };
 
     // element access adapters -------------------------------------------------------------
+    // minimal RawAllocator: only allocate_node / deallocate_node; arrays (vector and deque buffers)
+    // reach it through the default fallbacks of allocator_traits
+    class CMinLeaf
+    {
+    public:
+        using is_stateful = std::true_type;
+        explicit CMinLeaf(int owner) : owner_(owner) {}
+        CMinLeaf(const CMinLeaf&)            = delete;
+        CMinLeaf& operator=(const CMinLeaf&) = delete;
+        void* allocate_node(std::size_t size, std::size_t align)
+        {
+            return Slab::get().allocate(owner_, false, 1, size, align);
+        }
+        void deallocate_node(void* p, std::size_t size, std::size_t align) noexcept
+        {
+            Slab::get().deallocate(owner_, false, p, 1, size, align);
+        }
+        int owner() const
+        {
+            return owner_;
+        }
+
+    private:
+        int owner_;
+    };
+    // copyable handle onto allocator state kept elsewhere, declared a *shared* allocator: std_allocator
+    // stores a copy; two handles are interchangeable exactly if they name the same owner
+    class CHandle
+    {
+    public:
+        using is_stateful = std::true_type;
+        explicit CHandle(int owner) : owner_(owner) {}
+        void* allocate_node(std::size_t size, std::size_t align)
+        {
+            return Slab::get().allocate(owner_, false, 1, size, align);
+        }
+        void* allocate_array(std::size_t count, std::size_t size, std::size_t align)
+        {
+            return Slab::get().allocate(owner_, true, count, size, align);
+        }
+        void deallocate_node(void* p, std::size_t size, std::size_t align) noexcept
+        {
+            Slab::get().deallocate(owner_, false, p, 1, size, align);
+        }
+        void deallocate_array(void* p, std::size_t count, std::size_t size, std::size_t align) noexcept
+        {
+            Slab::get().deallocate(owner_, true, p, count, size, align);
+        }
+        int owner() const
+        {
+            return owner_;
+        }
+        friend bool operator==(const CHandle& a, const CHandle& b) noexcept
+        {
+            return a.owner_ == b.owner_;
+        }
+        friend bool operator!=(const CHandle& a, const CHandle& b) noexcept
+        {
+            return a.owner_ != b.owner_;
+        }
+
+    private:
+        int owner_;
+    };
+} // namespace
+namespace foonathan
+{
+    namespace memory
+    {
+        template <>
+        struct is_shared_allocator<CHandle> : std::true_type
+        {
+        };
+    } // namespace memory
+} // namespace foonathan
+namespace
+{
+    // element types whose size is not a power of two
+    template <size_t Words>
+    struct EW
+    {
+        int w[Words];
+        EW(int v = 0)
+        {
+            for (size_t i = 0; i < Words; ++i)
+                w[i] = v + int(i);
+        }
+        explicit operator long() const
+        {
+            for (size_t i = 0; i < Words; ++i)
+                if (w[i] != w[0] + int(i))
+                    return -1; // element bytes were overwritten
+            return w[0];
+        }
+        bool operator==(const EW& o) const
+        {
+            return w[0] == o.w[0];
+        }
+    };
+
     template <class C>
     struct Ops;
 
@@ -256,7 +356,7 @@ namespace
     };
 
     // C: container over our allocator, R: same container over std::allocator (reference)
-    template <class C, class R, class Alloc>
+    template <class C, class R, class Alloc, class CLeaf = ::CLeaf>
     Verdict run_case(const char* name, const Program& p, CaseInfo& ci, bool any_flavour)
     {
         Fail f;
@@ -550,10 +650,52 @@ namespace
             auto P = [&](size_t i) { return i < p.params.size() ? p.params[i] : 0u; };
             Slab::get().reset(P(2), gaps[(P(2) / 4) % 4]);
             Slab::get().clear_error();
-            unsigned kind = P(0) % 24;
+            unsigned kind = P(0) % 33;
+            if (kind >= 29)
+            {
+                using VT = std::pair<const int, int>;
+                switch (kind)
+                {
+                case 29:
+                    return run_case<std::vector<int, fm::std_allocator<int, CHandle>>, std::vector<int>,
+                                    fm::std_allocator<int, CHandle>, CHandle>("vector<int>/std_allocator<T,SharedHandle>", p, ci, false);
+                case 30:
+                    return run_case<std::list<int, fm::std_allocator<int, CHandle>>, std::list<int>,
+                                    fm::std_allocator<int, CHandle>, CHandle>("list<int>/std_allocator<T,SharedHandle>", p, ci, false);
+                case 31:
+                    return run_case<std::map<int, int, std::less<int>, fm::std_allocator<VT, CHandle>>, std::map<int, int>,
+                                    fm::std_allocator<VT, CHandle>, CHandle>("map<int,int>/std_allocator<T,SharedHandle>", p, ci, false);
+                default:
+                    return run_case<std::deque<int, fm::std_allocator<int, CHandle>>, std::deque<int>,
+                                    fm::std_allocator<int, CHandle>, CHandle>("deque<int>/std_allocator<T,SharedHandle>", p, ci, false);
+                }
+            }
             if (kind < 12)
                 return Flavour<CLeaf>::run(kind, p, ci, false, "std_allocator<T,CLeaf>");
-            return Flavour<fm::any_allocator>::run(kind - 12, p, ci, true, "any_std_allocator");
+            if (kind < 24)
+                return Flavour<fm::any_allocator>::run(kind - 12, p, ci, true, "any_std_allocator");
+            // node-only leaf, element sizes 12 / 20 / 24 bytes
+            using E12 = EW<3>;
+            using E20 = EW<5>;
+            using E24 = EW<6>;
+            switch (kind)
+            {
+            case 24:
+                return run_case<std::vector<E12, fm::std_allocator<E12, CMinLeaf>>, std::vector<E12>,
+                                fm::std_allocator<E12, CMinLeaf>, CMinLeaf>("vector<E12>/std_allocator<T,MinLeaf>", p, ci, false);
+            case 25:
+                return run_case<std::deque<E12, fm::std_allocator<E12, CMinLeaf>>, std::deque<E12>,
+                                fm::std_allocator<E12, CMinLeaf>, CMinLeaf>("deque<E12>/std_allocator<T,MinLeaf>", p, ci, false);
+            case 26:
+                return run_case<std::vector<E24, fm::std_allocator<E24, CMinLeaf>>, std::vector<E24>,
+                                fm::std_allocator<E24, CMinLeaf>, CMinLeaf>("vector<E24>/std_allocator<T,MinLeaf>", p, ci, false);
+            case 27:
+                return run_case<std::list<E20, fm::std_allocator<E20, CMinLeaf>>, std::list<E20>,
+                                fm::std_allocator<E20, CMinLeaf>, CMinLeaf>("list<E20>/std_allocator<T,MinLeaf>", p, ci, false);
+            default:
+                return run_case<std::vector<E20, fm::std_allocator<E20, CMinLeaf>>, std::vector<E20>,
+                                fm::std_allocator<E20, CMinLeaf>, CMinLeaf>("vector<E20>/std_allocator<T,MinLeaf>", p, ci, false);
+            }
         }
     };
 } // namespace
